@@ -31,7 +31,7 @@ impl<T: Send + Copy> CommandWriter<T> {
 	/** Writes a new value, overwriting any previous values. */
 	pub fn write(&mut self, command: T) {
 		#[cfg(kira_verif)]
-		crate::verif::point("cmd.w");
+		crate::verif::point_in("cmd.w", core::any::type_name::<T>());
 		self.0.write(Some(command))
 	}
 }
@@ -48,7 +48,7 @@ impl<T: Send + Copy> CommandReader<T> {
 	#[must_use]
 	pub fn read(&mut self) -> Option<T> {
 		#[cfg(kira_verif)]
-		crate::verif::point("cmd.r");
+		crate::verif::point_in("cmd.r", core::any::type_name::<T>());
 		if self.0.update() {
 			*self.0.output_buffer_mut()
 		} else {
